@@ -264,6 +264,8 @@ def merged_case(ctx, d, rng, k):
         # single uncurated probe would disagree with one-cluster-per-template)
         ds, tsv, rec = merge_common.make_probe(rng, j, shared, k, allow_empty=False)
         ds['pos'] = np.c_[(np.arange(len(ds['chmap'])) % 2) * 16.0 + 0.0, np.arange(len(ds['chmap'])) * 20.0]
+        if k % 2:
+            ds['chmap_dtype'] = np.int64      # (channel maps are int32 from the sorter, int64 from other tools)
         sub = root / ('p%d' % (9 + j))
         D.write_dataset(sub, ds)
         subdirs.append(sub)
